@@ -599,13 +599,42 @@ pub fn watch_main(job: &Value) -> i32 {
                     break;
                 }
             }
-            let triggered = {
+            // each notify watcher (one per extension group) has its own thread: the callbacks of another group for this
+            // operation may arrive after the sentinel's; give them a quiet period, then look at everything but the sentinel
+            if alive {
+                let mut last = p.sh.lock().unwrap().events.len();
+                for _ in 0..20 {
+                    std::thread::sleep(Duration::from_millis(15));
+                    let now = p.sh.lock().unwrap().events.len();
+                    if now == last {
+                        break;
+                    }
+                    last = now;
+                }
+            }
+            let _ = upto;
+            let canon_s = format!("{}/", canon.to_string_lossy());
+            let mut cbs = vec![];
+            {
                 let sh = p.sh.lock().unwrap();
-                let end = if alive { upto } else { sh.events.len() };
-                sh.events[from..end].iter().any(|e| e.ev == "watch_event" && e.get("relevant") == Some("true"))
-            };
+                for e in sh.events[from..].iter() {
+                    if e.ev == "watch_event" && e.get("relevant") == Some("true") {
+                        let paths: Vec<String> = e.get("paths").and_then(|x| serde_json::from_str(x).ok()).unwrap_or_default();
+                        let others: Vec<Vec<String>> = paths
+                            .iter()
+                            .filter(|x| **x != sentinel_s)
+                            .map(|x| x.strip_prefix(&canon_s).unwrap_or(x).split('/').map(|c| c.replace('\u{fffd}', "?")).collect())
+                            .collect();
+                        if !others.is_empty() {
+                            let exts: String = e.get("exts").and_then(|x| serde_json::from_str(x).ok()).unwrap_or_default();
+                            cbs.push(json!({"exts": exts, "paths": others}));
+                        }
+                    }
+                }
+            }
+            let triggered = !cbs.is_empty();
             let delivered = drain(&rx);
-            results.push(json!({"triggered": triggered, "alive": alive && delivered}));
+            results.push(json!({"triggered": triggered, "alive": alive && delivered, "cbs": cbs}));
         }
         drop(watcher);
         rec["results"] = json!(results);
